@@ -175,6 +175,7 @@ static KV genCase()
     s.dirbc      = rbool();
     s.threads    = rpick({1, 2});
     s.strategy   = rint(0, 1);
+    s.via_cli    = rint(0, 1); // how the first configuration reaches the object (later changes go through the setters)
     const bool pattern = rint(0, 3) == 0; // the convergence_order loop: only divideBy2 changes
     for (int k = 0; k < rounds; k++) {
         if (k > 0 && !pattern && rint(0, 2) == 0) {
